@@ -15,14 +15,15 @@ import (
 
 // Sess drives one server instance and writes one trace line per operation.
 type Sess struct {
-	prop  string
-	kind  string
-	st    *Store
-	h     http.Handler
-	vids  []string // version ids seen, in order of first appearance
-	opts  SessOpts
-	nops  int
-	walks int // paginated walks so far (every third one opens with an empty marker parameter)
+	prop    string
+	kind    string
+	st      *Store
+	h       http.Handler
+	vids    []string // version ids seen, in order of first appearance
+	opts    SessOpts
+	nops    int
+	verDocs int // versioning documents sent so far (every third suspension does not mention the status)
+	walks   int // paginated walks so far (every third one opens with an empty marker parameter)
 
 	// while capturing, operations are recorded instead of written (concurrent rounds emit them afterwards)
 	mute           bool   // dry runs: nothing is written to the trace
@@ -395,6 +396,12 @@ func (s *Sess) SetVersioning(b string, enable bool) Resp {
 		status = "Enabled"
 	}
 	body := `<VersioningConfiguration xmlns="http://s3.amazonaws.com/doc/2006-03-01/"><Status>` + status + `</Status></VersioningConfiguration>`
+	if s.verDocs++; !enable && s.verDocs%3 == 0 {
+		// a document that does not mention the status (what GET ?versioning answers for a bucket that never
+		// had versioning, sent back; or one that only speaks of MfaDelete): versioning is not enabled by it,
+		// which for a bucket that has it enabled means suspended
+		body = []string{`<VersioningConfiguration xmlns="http://s3.amazonaws.com/doc/2006-03-01/"><MfaDelete>Disabled</MfaDelete></VersioningConfiguration>`, `<VersioningConfiguration/>`}[s.verDocs/3%2]
+	}
 	r := do(s.h, Req{Method: "PUT", Path: "/" + pathEscape(b) + "?versioning", Body: []byte(body)})
 	s.emitOp("ver", []string{hs(b), boolField(enable)}, obsT{r: r})
 	if enable && r.Status == 200 {
